@@ -4,6 +4,7 @@ import (
 	"encoding/json"
 	"fmt"
 	"os"
+	"path/filepath"
 	"time"
 
 	"verif/pkg/proto"
@@ -88,9 +89,16 @@ func replayCodec(rp *proto.Replay, file string) int {
 		fmt.Fprintln(os.Stderr, "verif:", err)
 		return 2
 	}
+	os.Setenv("VERIF_KNOWN_FILE", filepath.Join(VerifDir(), "known_findings.json"))
 	stdout, stderr, err := runNodeRaw(node, []string{"-replay", file}, 10*time.Minute)
 	code := exitCode(err)
 	fmt.Print(stdout)
+	if rp.Scenario.Kind == "rerun" && code != 0 {
+		// the node died again: that is the recorded violation
+		fmt.Println(clipS(crashLine(stderr), 300))
+		fmt.Printf("VIOLATION property=%s replay=%s\n", rp.Property, file)
+		return 1
+	}
 	switch code {
 	case 1:
 		fmt.Printf("VIOLATION property=%s replay=%s\n", rp.Property, file)
